@@ -23,6 +23,9 @@
 //   - Events            an event.Manager recorder (PreLogin, GameProfileRequest, Login, PostLogin,
 //     Disconnect) that can also script the PreLogin result and let the
 //     PreLogin subscriber send login plugin messages (Events.PluginMessages).
+//   - HandlerConn / ProfileKey   recording netmc.MinecraftConn for delivering DECODED packets to a session handler
+//     (where the wire cannot carry the input), and a stand-in for a Mojang-signed profile key whose data
+//     signatures are verified with real RSA.
 //   - ListenBackend     loopback TCP listener handing each accepted connection to a callback as a Wire
 //     (for later builders: C15/C16/C31 fake backends).
 //   - RunParallel       runs n independent jobs `width`-wide and returns results in index order
